@@ -397,3 +397,44 @@ Theorem C14_check_fmt_sound : forall f calls l, check (IFmt f calls) (OS l) = tr
   Forall2 (fun x out => out = fmt_of f (fst (fst x)) (snd (fst x)) (snd x)) calls l.
 Proof. exact check_fmt_sound. Qed.
 Print Assumptions C14_check_fmt_sound.
+
+(* "for any scale (linear, log2, log10) ... draw quantities proportionally", heatmap, under the
+   scale CHOSEN at the time of each render: in the model every call takes the scaler and the range
+   in force as arguments, never a remembered one — UpdateMinMax and WriteTable complete for any
+   range (fixed bounds included, in any order with the assignment of Scaler/Formatter), and every
+   cell of a row is the block of its value under the scaler and range given to THAT render. *)
+Theorem C14_heat_range_total : forall m rnd, (forall a b, (a <= b)%Z -> m a <= m b) ->
+  (forall x y, x <= y -> rnd x <= rnd y) -> rnd 0 == 0 -> rnd 1 == 1 -> (forall x, 0 < x -> 0 < rnd x) ->
+  (forall k, small_int k -> rnd (inject_Z k) == inject_Z k) ->
+  forall col uni keys fmt mn mx,
+  (forall rlim clim h tm a, exists st, heat_write_table_rng col uni m rnd keys fmt mn mx rlim clim h tm a = Some (Ok st)) /\
+  (forall h tm, exists tm', heat_update_minmax col uni m rnd keys fmt h tm mn mx = Ok tm').
+Proof.
+  intros m rnd H1 H2 H3 H4 H5 H6 col uni keys fmt mn mx. split.
+  - intros. apply (heat_write_table_rng_total col uni m rnd keys fmt H1 H2 H3 H4 H5 H6).
+  - intros. apply (heat_update_minmax_total col uni m rnd keys fmt H1 H2 H3 H4 H5 H6).
+Qed.
+Print Assumptions C14_heat_range_total.
+Theorem C14_heat_row_blocks : forall col uni m rnd w mn mx name vals w' line,
+  heat_row col uni m rnd w mn mx name vals = Ok (w', line) ->
+  exists cells, rconcat (fun v => heat_write col uni rnd (scale m rnd v mn mx)) vals = Ok cells /\
+                line = wrap col col_Yellow name ++ rep (w' - str_len col name + 1) SP ++ cells.
+Proof. exact heat_row_blocks. Qed.
+Print Assumptions C14_heat_row_blocks.
+(* and the boolean form for heatmaps driven in the command's call order is sound: an accepted
+   final screen shows, row by row, the blocks of the values under the scaler in force at the last
+   render and the range in force (fixed bounds or the data's) *)
+Theorem C14_check_heatseq_sound : forall col uni rlim clim fmn fmx ops lines mp f a cmn cmx,
+  check (IHeatSeq col uni rlim clim fmn fmx ops) (OS lines) = true ->
+  ranges_before_last fmn fmx 0 1 ops = Some (HoTab mp f a, cmn, cmx) ->
+  let mn := fst (eff_range fmn fmx cmn cmx a) in
+  let mx := snd (eff_range fmn fmx cmn cmx a) in
+  let cc := Nat.min (length (a_cols a)) clim in
+  let rc := Nat.min (length (a_rows a)) rlim in
+  forall k r, nth_error (firstn rc (a_rows a)) k = Some r ->
+    exists pad cells,
+      rconcat (fun v => heat_write col uni round53 (scale (m_of mp) round53 v mn mx)) (firstn cc (r_vals r)) = Ok cells /\
+      nth (2 + k) lines [] = vis col (wrap col col_Yellow (r_name r)) ++ pad ++ vis col cells /\
+      pad <> [] /\ Forall (fun x => x = SP) pad.
+Proof. exact check_heatseq_sound. Qed.
+Print Assumptions C14_check_heatseq_sound.
